@@ -55,7 +55,7 @@ theorem validName_dropWhile (l : Str) (h : ∀ c ∈ l, isNameChar c = true) :
       simp only [validName, Bool.and_eq_true, List.all_eq_true]
       exact ⟨lead_of_not_sep c (h c List.mem_cons_self) hs', fun d hd => h d (List.mem_cons_of_mem _ hd)⟩
 
-theorem normalize_valid (s : Str) : normalize s = [] ∨ validName (normalize s) = true := by
+theorem norm_valid (s : Str) : normalize s = [] ∨ validName (normalize s) = true := by
   unfold normalize
   apply validName_dropWhile
   intro c hc
@@ -89,15 +89,15 @@ theorem normalize_of_valid (s : Str) (h : validName s = true) : normalize s = s 
 
 theorem normalize_nil : normalize [] = [] := rfl
 
-theorem normalize_idem (s : Str) : normalize (normalize s) = normalize s := by
-  rcases normalize_valid s with h | h
+theorem norm_idem (s : Str) : normalize (normalize s) = normalize s := by
+  rcases norm_valid s with h | h
   · rw [h]; rfl
   · exact normalize_of_valid _ h
 
-theorem normalize_fixed_iff (s : Str) : normalize s = s ↔ (s = [] ∨ validName s = true) := by
+theorem norm_fixed_iff (s : Str) : normalize s = s ↔ (s = [] ∨ validName s = true) := by
   constructor
   · intro h
-    have := normalize_valid s
+    have := norm_valid s
     rwa [h] at this
   · rintro (h | h)
     · subst h; rfl
@@ -168,7 +168,7 @@ theorem imperative_agrees (n : Str) (hn : n ≠ []) :
     exact ⟨rfl, hn⟩
   · have hne : normalize n ≠ n := by
       intro h
-      rcases (normalize_fixed_iff n).mp h with h | h
+      rcases (norm_fixed_iff n).mp h with h | h
       · exact hn h
       · exact hv h
     simp only [hv, hne, ne_eq, not_false_eq_true, if_true]
@@ -485,13 +485,13 @@ theorem decide_name_valid (s : Sources) (n : Str) (h : Spec.decide s = .name n) 
         split at h
         · rename_i hne
           cases h
-          rcases normalize_valid t with h0 | h0
+          rcases norm_valid t with h0 | h0
           · exact absurd h0 hne
           · exact h0
         · split at h
           · rename_i hne
             cases h
-            rcases normalize_valid s.dirBase with h0 | h0
+            rcases norm_valid s.dirBase with h0 | h0
             · exact absurd h0 hne
             · exact h0
           · cases h
